@@ -1,7 +1,7 @@
 (* C16 - executable model of schema / column persistence.  No proofs here.
 
    orso/schema.py  FlatColumn.__init__ (153-217)              -> collect, norm_disposition, norm_element, norm_type,
-                                                                 norm_default, norm_decimal, init
+                                                                 norm_decimal, norm_default, init
                    RelationSchema.to_dict / from_dict (641-675) -> conv, to_dict_col, to_dict, from_dict
                    FlatColumn.to_json / from_json (328-355)     -> json_of_pv, to_json, kwargs_of_json, from_json
                    FlatColumn.to_flatcolumn (270-288)           -> to_flatcolumn
@@ -258,6 +258,9 @@ Definition pv_of_optT (o : option str) : pv := match o with Some m => PA (ATy m)
 Definition ty_decimal : str := Eval vm_compute in txt "DECIMAL"%string.
 Definition ty_array : str := Eval vm_compute in txt "ARRAY"%string.
 
+(* what OrsoTypes.parse is given besides the value: length, precision, scale, element_type of the column *)
+Definition params : Type := (pv * pv * pv * pv)%type.
+
 (* ---------- JSON values ---------- *)
 Inductive jval :=
 | JNull | JBool (b : bool) | JInt (z : Z) | JFloat (bits : N) | JText (s : str)
@@ -297,7 +300,7 @@ Definition to_dict_col (c : column) : kwargs := map (fun f => (f, conv (get f c)
 
 Section Model.
 (* OrsoTypes.<m>.parse(v): C07's function, not modelled here *)
-Variable parse : str -> pv -> result pv.
+Variable parse : str -> params -> pv -> result pv.
 (* orjson.dumps(v, default=<to_json's hook>) for a leaf value JSON has no native form for *)
 Variable ser_ext : atom -> result jval.
 
@@ -378,19 +381,23 @@ Definition norm_type (c : column) : result column :=
            end)
   end.
 
-(* a truthy default is parsed by the column's type; every failure becomes ValueError *)
+(* every non-null default of a typed column is cast by the column's type, with the column's own length,
+   precision, scale and element type; every failure becomes ValueError; an untyped column (0 or the
+   placeholder member) keeps its default untouched *)
+Definition col_params (c : column) : params := (c_length c, c_precision c, c_scale c, c_elt c).
 Definition norm_default (c : column) : result column :=
-  if truthy (c_default c) then
-    match c_type c with
-    | PA (ATy m) =>
-        match parse m (c_default c) with
-        | Ok v => Ok (set FDefault v c)
-        | Raise Unmodelled => Raise Unmodelled
-        | Raise _ => Raise ValueError
-        end
-    | _ => Raise ValueError                     (* 0 has no parse *)
-    end
-  else Ok c.
+  if is_none (c_default c) then Ok c else
+  match c_type c with
+  | PA (AInt 0) => Ok c
+  | PA (ATy m) =>
+      if str_eqb m missing_member then Ok c else
+      match parse m (col_params c) (c_default c) with
+      | Ok v => Ok (set FDefault v c)
+      | Raise Unmodelled => Raise Unmodelled
+      | Raise _ => Raise ValueError
+      end
+  | _ => Raise ValueError                     (* anything else has no parse *)
+  end.
 
 (* DECIMAL: context precision, scale int(0.75 * precision) *)
 Definition norm_decimal (c : column) : result column :=
@@ -413,8 +420,8 @@ Definition init (cls fresh : str) (kw : kwargs) : result column :=
   bind (norm_disposition (of_assoc l)) (fun c1 =>
   bind (norm_element c1) (fun c2 =>
   bind (norm_type c2) (fun c3 =>
-  bind (norm_default c3) (fun c4 =>
-  norm_decimal c4))))).
+  bind (norm_decimal c3) (fun c4 =>
+  norm_default c4))))).
 
 (* ---------- to_flatcolumn ---------- *)
 Definition flat_kept : list field :=
@@ -469,7 +476,7 @@ Definition from_dict (fresh : nat -> str) (d : sdict) : result schema :=
       bind (restore_cols fresh 0 (d_columns d)) (fun cs =>
       Ok (mkschema n (match d_aliases d with Some a => a | None => PL [] end) cs
                    (match d_pk d with Some k => k | None => PNone end)
-                   PNone PNone PNone PNone))
+                   (nth 0 (d_rest d) PNone) (nth 1 (d_rest d) PNone) (nth 2 (d_rest d) PNone) (nth 3 (d_rest d) PNone)))
   end.
 
 (* ---------- to_json / from_json ---------- *)
@@ -648,10 +655,13 @@ Definition desc_eqb (a b : pv * str * pv * pv * pv) : bool :=
   pv_eqb n n' && str_eqb t t' && pv_eqb p p' && pv_eqb s s' && pv_eqb k k'.
 
 (* the observed library functions, as finite tables *)
-Definition parse_table := list (str * pv * result pv).
-Definition parse_of (t : parse_table) (m : str) (v : pv) : result pv :=
-  match find (fun '(m', v', _) => str_eqb m m' && pv_eqb v v') t with
-  | Some (_, _, r) => r
+Definition params_eqb (a b : params) : bool :=
+  let '(a1, a2, a3, a4) := a in let '(b1, b2, b3, b4) := b in
+  pv_eqb a1 b1 && pv_eqb a2 b2 && pv_eqb a3 b3 && pv_eqb a4 b4.
+Definition parse_table := list (str * params * pv * result pv).
+Definition parse_of (t : parse_table) (m : str) (q : params) (v : pv) : result pv :=
+  match find (fun '(m', q', v', _) => str_eqb m m' && params_eqb q q' && pv_eqb v v') t with
+  | Some (_, _, _, r) => r
   | None => Raise Unmodelled
   end.
 Definition ser_table := list (atom * result jval).
@@ -697,7 +707,7 @@ Definition c16_schema_case : Type :=
 Definition built_ok (x : kwargs * colobs) : option column :=
   match o_built (snd x) with Ok c => Some c | Raise _ => None end.
 
-Definition col_check (P : str -> pv -> result pv) (S : atom -> result jval) (x : kwargs * colobs) : bool :=
+Definition col_check (P : str -> params -> pv -> result pv) (S : atom -> result jval) (x : kwargs * colobs) : bool :=
   let '(kw, o) := x in
   let b := init P class_flat (o_fresh o) kw in
   result_eqb column_eqb b (o_built o) &&
